@@ -238,6 +238,7 @@ class HoldPolicy(Policy):
     call is the nth (op, cls) match, until actor `until` has finished `until_ops`
     harness-level operations (or can make no progress)."""
     name = "hold"
+    consult_single = True
 
     def __init__(self, base: Policy, hold: str, op: Optional[str], cls: Optional[str], nth: int,
                  until: Optional[str], until_ops: int = 1):
@@ -300,6 +301,7 @@ class HoldPolicy(Policy):
 class ReplayPolicy(Policy):
     """Follow an explicit deviation map {key: actor-name}; default elsewhere."""
     name = "replay"
+    consult_single = True
 
     def __init__(self, deviations: Dict[str, Optional[str]]):
         self.dev = dict(deviations)
@@ -476,7 +478,7 @@ class Sim:
                 else:
                     self.idle_count += 1
                     self._key = f"idle:{self.idle_count}"
-                if len(ready) == 1 and not isinstance(self.policy, (HoldPolicy,)):
+                if len(ready) == 1 and not getattr(self.policy, "consult_single", False):
                     chosen = ready[0]
                 else:
                     self.nchoices += 1
